@@ -7,7 +7,7 @@ export CARGO_NET_OFFLINE=true
 # the translator tie (DESIGN §16): regenerate the definitions from /repo and pre-build the tie modules; best effort — a
 # source that has left the translated subset is handled by ./check, not here
 python3 tools/rs2lean.py > /dev/null 2>&1 || true
-( cd lean && lake build Jp.Tie.TransportValidate Jp.Tie.TransportToken Jp.Tie.TransportSlice Jp.Tie.TransportIndex Jp.Tie.TransportPointer Jp.Tie.TransportResolve Jp.Tie.TransportBuf Jp.Tie.TransportDelete Jp.Tie.TransportExpand Jp.Tie.TransportAssign Jp.Tie.TransportLabels Jp.Tie.TransportParseErr Jp.Tie.TransportBuild Jp.Tie.TransportCmp Jp.Tie.TransportDoors Jp.Tie.TransportIter Jp.Props.Depth > /dev/null 2>&1 || true )
+( cd lean && lake build Jp.Tie.TransportValidate Jp.Tie.TransportToken Jp.Tie.TransportSlice Jp.Tie.TransportIndex Jp.Tie.TransportPointer Jp.Tie.TransportResolve Jp.Tie.TransportBuf Jp.Tie.TransportDelete Jp.Tie.TransportExpand Jp.Tie.TransportAssign Jp.Tie.TransportLabels Jp.Tie.TransportParseErr Jp.Tie.TransportBuild Jp.Tie.TransportCmp Jp.Tie.TransportDoors Jp.Tie.TransportIter Jp.Tie.TransportSerde Jp.Props.Depth > /dev/null 2>&1 || true )
 ( cd harness && cargo build --profile checked --offline )
 if [ -d harness-core ]; then ( cd harness-core && cargo build --profile checked --offline ); fi
 echo setup-ok
